@@ -231,3 +231,45 @@ def mapWsCases : Cases → Cases
 end
 
 end TemplVerif.Drive.AstParse
+
+namespace TemplVerif.Drive.AstParse
+open TemplVerif TemplVerif.Ast
+
+/-! Every Go expression text of a tree, in order (to see whether the formatter re-spaced any of them). -/
+mutual
+def attrExprs : Attr → List Bytes
+  | .boolExpr _ e => [e]
+  | .expr _ e => [e]
+  | .spread e => [e]
+  | .cond e thn els => e :: (attrsExprs thn ++ attrsExprs els)
+  | _ => []
+def attrsExprs : Attrs → List Bytes
+  | .nil => []
+  | .cons a as => attrExprs a ++ attrsExprs as
+end
+
+mutual
+def nodeExprs : Node → List Bytes
+  | .element _ as cs _ _ _ => attrsExprs as ++ nodesExprs cs
+  | .raw _ as _ => attrsExprs as
+  | .script as _ => attrsExprs as
+  | .forE e b => e :: nodesExprs b
+  | .call e => [e]
+  | .templEl e b => e :: nodesExprs b
+  | .ifE e thn elifs els => e :: (nodesExprs thn ++ elifsExprs elifs ++ nodesExprs els)
+  | .switchE e cs => e :: casesExprs cs
+  | .strExpr e _ => [e]
+  | .goCode e _ _ => [e]
+  | _ => []
+def nodesExprs : Nodes → List Bytes
+  | .nil => []
+  | .cons n ns => nodeExprs n ++ nodesExprs ns
+def elifsExprs : ElseIfs → List Bytes
+  | .nil => []
+  | .cons e thn rest => e :: (nodesExprs thn ++ elifsExprs rest)
+def casesExprs : Cases → List Bytes
+  | .nil => []
+  | .cons e b rest => e :: (nodesExprs b ++ casesExprs rest)
+end
+
+end TemplVerif.Drive.AstParse
